@@ -18,6 +18,9 @@ func mEntry[T any](name string, nsrc int, flags Flags, step func(n int) Step, mk
 
 func mEntryO[T any](name string, nsrc int, flags Flags, step func(n int) Step, order []int, mk func(b *B) ro.Observable[T], exports ...string) {
 	e := &Entry{Name: name, NSrc: nsrc, Build: func(b *B) Pipeline { return P(mk(b)) }, Flags: flags | MultiFeed, Exports: exports, Order: order}
+	if f, ok := any(mk).(func(b *B) ro.Observable[int]); ok {
+		e.IntObs = f
+	}
 	if step != nil {
 		e.Step = step
 		e.Model = SyncModel(step, order)
